@@ -390,6 +390,23 @@ func init() {
 		Level: "exploration",
 		Rule:  "arbitrary prior histories from the adversarial generator (refused forgeries, extension lines, up to 120 extra signature lines, first checkpoints of size 0, garbage roots), followed by 1..3 honest probes: the log whose history contains the witnessed checkpoint signs (own line only) an equal or larger size, old size = the witness's current size, proof from the reference tree (empty when equal or old is 0); bounded liveness: each probe must be accepted at once; non-trivial = a probe was sent to a witness holding a checkpoint; distinct = distinct (stored-state class, delta class, last prior verdict) tuples",
 		Gen: func(r *Rng, tier string, n uint64) *Plan {
+			if n%9 == 7 {
+				// prior traffic and honest probes through the add-checkpoint endpoint; each probe follows a silence of two token periods
+				// (or an hour), after which no limiter of the configured rate can be short of a token - whatever was pushed back before
+				q := scenarios["C10"].Gen(r, tier, n)
+				q.Scenario = "endpoint-probes"
+				q.Faults = nil
+				if q.Cfg.Extra["rate"] < 1 {
+					q.Cfg.Extra["rate"] = 1
+				}
+				q.Cfg.Extra["probe_from"] = int64(len(q.Ops))
+				for l := range q.Cfg.Logs {
+					for k := r.Range(1, 2); k > 0; k-- {
+						q.Ops = append(q.Ops, Op{K: "jump", Ms: Pick(r, 2000/q.Cfg.Extra["rate"]+2, 2000/q.Cfg.Extra["rate"]+2, 3600000)}, Op{K: "update", L: l, B: -1, Sz: "rel1", D: uint64(r.Range(0, 6))})
+					}
+				}
+				return q
+			}
 			pf := Profile{MaxLogs: 2, ShareKeys: true, MinOps: 1, MaxOps: 10, Adversarial: 0.5, Mutations: 0.2, BigSizes: r.Chance(0.3), Reads: 0}
 			p := &Plan{Scenario: "W"}
 			p.Cfg = genConfig(r, pf)
@@ -473,6 +490,9 @@ func init() {
 			return p
 		},
 		Run: func(t *testing.T, p *Plan) *Outcome {
+			if p.Scenario == "endpoint-probes" {
+				return c08ViaBastion(t, p)
+			}
 			if p.Cfg.Extra["clockback"] != 0 {
 				return c08ClockBack(t, p)
 			}
